@@ -124,14 +124,6 @@ def main():
         pidch = gw.remote_exec("import os\nchannel.send(os.getpid())")
         workers[g["id"]] = pidch.receive(30)
         pidch.waitclose(30)
-    if case.get("worker_debug"):
-        # finished executions that leave garbage behind which only the cyclic collector finds (a function defined by the
-        # source refers to its own namespace, which holds the channel)
-        for g in case["gateways"]:
-            for _ in range(3):
-                c_ = gws[g["id"]].remote_exec("def helper():\n    return channel\nchannel.send(helper.__name__)")
-                c_.receive(30)
-                c_.waitclose(30)
     emit(event="workers", pids=workers, boot_s=round(time.monotonic() - t_boot, 3))
     for g in case["gateways"]:
         act = g.get("activity", "idle")
@@ -180,6 +172,16 @@ def main():
             time.sleep(0.1)
     if any(g.get("activity") in ("fds_closed_alive", "execv_sleep") for g in case["gateways"]):
         time.sleep(0.8)  # let those connections reach EOF
+    if case.get("worker_debug"):
+        # executions that leave garbage behind which only the cyclic collector finds (a function defined by the source refers
+        # to its own namespace, which holds the channel); nobody waits for them
+        for g in case["gateways"]:
+            for _ in range(3):
+                try:
+                    chans.append(gws[g["id"]].remote_exec("def helper():\n    return channel\n"))
+                except Exception as e:  # noqa
+                    emit(event="note", msg=f"helper exec: {e!r}")
+        time.sleep(0.3)
     emit(event="ready")
     action = case["action"]
     if action == "terminate":
